@@ -144,6 +144,13 @@ def _wire_values(instr):
     return new
 
 
+class _SubroutineObjectMessage:
+    """stands in for netqasm.backend.messages.SubroutineMessage inside PipeConnection.commit_subroutine: carries the Subroutine object"""
+
+    def __init__(self, subroutine):
+        self.subroutine = subroutine
+
+
 class PipeConnection(BaseNetQASMConnection):
     """Commits Subroutine objects directly (no ctypes) to a real Executor subclass."""
 
@@ -169,11 +176,24 @@ class PipeConnection(BaseNetQASMConnection):
             self.executor.init_new_application(app_id=msg.app_id, max_qubits=msg.max_qubits)
         elif isinstance(msg, StopAppMessage):
             list(self.executor.stop_application(app_id=msg.app_id))
+        elif isinstance(msg, _SubroutineObjectMessage):
+            self._deliver_subroutine(msg.subroutine)
         elif isinstance(msg, OpenEPRSocketMessage):
             list(self.executor.setup_epr_socket(epr_socket_id=msg.epr_socket_id, remote_node_id=msg.remote_node_id,
                                                 remote_epr_socket_id=msg.remote_epr_socket_id))
 
     def commit_subroutine(self, subroutine: Subroutine, block=True, callback=None):
+        """the REAL commit_subroutine runs; only the message class it instantiates is replaced by one that does not serialise the
+        subroutine to bytes (symbolic operands cannot go through ctypes; the byte level is C01 / C02 / C15)"""
+        import netqasm.sdk.connection as connmod
+        real = connmod.SubroutineMessage
+        connmod.SubroutineMessage = _SubroutineObjectMessage
+        try:
+            return super().commit_subroutine(subroutine, block=block, callback=callback)
+        finally:
+            connmod.SubroutineMessage = real
+
+    def _deliver_subroutine(self, subroutine: Subroutine):
         subroutine.instructions = [_wire_values(i) for i in subroutine.instructions]
         self.committed.append(subroutine)
         self.executor.consume_execute_subroutine(subroutine)
